@@ -30,7 +30,7 @@ B(str) == CASE str = "main" -> <<109,97,105,110>> [] str = "develop" -> <<100,10
             [] str = "*" -> <<42>>
 Branches == IF Big THEN { B("main"), B("develop"), B("develop-x"), B("release/1"), B("release/1/x"), B("release/x"), B("release-1"),
                           B("releases"), B("release/"), B("release"), B("feature/7/y"), B("feature/x/08"), B("9/x"), B("") }
-            ELSE { B("main"), B("develop"), B("release/1"), B("release-1"), B("release/x"), B("feature/7/y"), B("") }
+            ELSE { B("main"), B("develop"), B("release/1"), B("release/1/x"), B("release-1"), B("release/x"), B("feature/7/y"), B("") }
 Rule(p, l, n, m) == [pattern |-> B(p), label |-> l, num |-> n, mode |-> m]
 RS(i) == CASE i = 1 -> << Rule("develop", "beta", 1, "commit"), Rule("release/*", "rc", NONE, "tag"), Rule("*", "alpha", NONE, "commit") >>
            \* first match wins among overlapping wildcards
